@@ -133,10 +133,24 @@ def cycle_check(chk, d, root, tag, rnd, sigbase, witness, cycles=2, df=None):
     try:
         with cl.quiet():
             dc = DatasetConstraints()
-            dc.initialize_from_dict(json.loads(json.dumps(d)))
-        ev('LoadDict', nfields=len(dc.fields))
+            d1 = json.loads(json.dumps(d))
+            before = json.dumps(d1, sort_keys=True)
+            dc.initialize_from_dict(d1)
+            # the caller's dictionary is an input: using it again (load, verify) gives the same thing, and it is left as it was
+            dcb = DatasetConstraints()
+            dcb.initialize_from_dict(d1)
+            reload_same = fields_text(dcb) == fields_text(dc)
+            if df is not None and len(dc.fields):
+                try:
+                    va = verdicts(df, d1)
+                    vb = verdicts(df, d1)
+                    reload_same = reload_same and va == vb
+                except Exception:
+                    pass
+            intact = json.dumps(d1, sort_keys=True) == before
+        ev('LoadDict', nfields=len(dc.fields), dictintact=bool(intact), reloadsame=bool(reload_same))
     except Exception as ex:
-        ev('LoadDict', nfields=0, raised='%s: %s' % (type(ex).__name__, str(ex)[:150]))
+        ev('LoadDict', nfields=0, dictintact=True, reloadsame=True, raised='%s: %s' % (type(ex).__name__, str(ex)[:150]))
         return events
     prev_text = None
     prev_fields = None
